@@ -12,28 +12,43 @@ LEVEL = 'exploration'
 
 
 def sizes(ctx):
-    return dict(programs=64, inputs=24) if ctx.tier == 'quick' else dict(programs=640, inputs=100)
+    return dict(programs=128, inputs=20) if ctx.tier == 'quick' else dict(programs=1280, inputs=80)
 
 
 def gen_cases(ctx, n_programs, n_inputs):
     cases = []
+    shapes_used = set()
     while len(cases) < n_programs:
         rng = random.Random(ctx.rng.getrandbits(48))
+        name = 'c%d' % len(cases)
+        if len(cases) % 2 == 1:
+            # enumerative half: rule shapes [binder]? cl1, cl2 sampled from the complete shape space
+            dom = rng.choice([3, 4])
+            prog, input_rels, picked = G.enumerated_program(rng, nrules=16, dom=dom)
+            assert not G.check_scoping(prog), (G.check_scoping(prog), prog.text())
+            shapes_used.update(picked)
+            v = E.Variant('v0', prog, 'ascent')
+            case = P.Case(name, prog, [v], meta={'dom': dom, 'kind': 'enumerated'})
+            for ii in range(n_inputs):
+                case.jobs.append(P.Job('%s_i%d' % (name, ii), case, v, G.enumerated_input(rng, dom)))
+            cases.append(case)
+            continue
         cfg = G.Cfg()
         cfg.dom = rng.choice([2, 3, 4, 5, 6])      # tiny domains: the same tuple is derived many ways
         if rng.random() < 0.3:
             cfg.n_rels, cfg.n_rules = (2, 3), (3, 6)
         prog, input_rels = G.gen_positive_program(rng, cfg)
         assert not G.check_scoping(prog), (G.check_scoping(prog), prog.text())
-        name = 'c%d' % len(cases)
         v = E.Variant('v0', prog, 'ascent')
-        case = P.Case(name, prog, [v], meta={'dom': cfg.dom})
+        case = P.Case(name, prog, [v], meta={'dom': cfg.dom, 'kind': 'random'})
         loadable = [r.name for r in prog.rels]
         for ii in range(n_inputs):
             # inputs mostly into input relations, sometimes into derived ones too (facts may sit anywhere)
             targets = input_rels if rng.random() < 0.7 else loadable
             case.jobs.append(P.Job('%s_i%d' % (name, ii), case, v, G.gen_input(rng, prog, targets, cfg.dom)))
         cases.append(case)
+    ctx.cov['enumerated_rule_shapes_sampled'] = len(shapes_used)
+    ctx.cov['enumerated_rule_shape_space'] = len(G.rule_shape_space())
     return cases
 
 
@@ -44,6 +59,7 @@ def run(ctx, only=None):
         cases = [c for c in cases if c.name == only]
     ctx.rule = ('random positive Ascent programs (2-6 relations, 3-8 rules; joins, constants, repeated variables, wildcards, '
                 'expression arguments, ?Some patterns, if / let / if-let, for-generators, disjunctions, multi-head rules, facts; domains of 2-6 values) '
+                '+ an enumerative half: programs of 16 rule shapes `[let|for binder]? cl1, cl2` sampled without replacement from the complete space over relations a/2, b/2, c/1 and the recursive head h/2 with arguments from {x, y, z, binder variable, constant, _}, on inputs with size ratios on both sides of the run-time join reordering; ' 
                 'x random, skewed, duplicated and program-directed inputs (also into derived relations). case = (program, input); non-trivial = the '
                 'reference derived >= 1 tuple beyond the input through a rule with >= 2 body items; distinct = distinct (program text, input)')
     ctx.assumptions = ['reference evaluator vgen/ref.py and the two printers of vgen/ast.py (cross-checked by ./check --selftest)',
